@@ -46,7 +46,7 @@ CONSTANTS FlagPolicy,   \* "as_coded" | "per_machine" | "fresh_only"
           CopyRows,     \* TRUE as coded
           CheckSig,     \* TRUE as coded
           MaxCalls,     \* bound on the number of calls
-          Cfgs          \* cache configurations explored: subset of {"valid","empty","other","oldsig"}
+          Cfgs          \* cache configurations explored: subset of {"valid","empty","other","oldsig","oldrules"}
 
 Machines == {"m1", "m2"}
 Nodes == {"w", "c1", "c7", "U"}
@@ -64,6 +64,7 @@ FileOf(c, g) == CASE c = "empty"  -> NoFile
                   [] c = "valid"  -> [sig |-> Sig(g), tab |-> Tab(g), ok |-> TRUE]
                   [] c = "other"  -> [sig |-> Sig(Other(g)), tab |-> Tab(Other(g)), ok |-> FALSE]
                   [] c = "oldsig" -> [sig |-> "sigOld", tab |-> "tabOld", ok |-> TRUE]
+                  [] c = "oldrules" -> [sig |-> "sigOldRules", tab |-> "tabOldRules", ok |-> TRUE]   \* written by the same yacc for older rules
 \* yacc.yacc() at import time, as coded
 Accepts(f, g) == f.sig # "none" /\ (f.sig = Sig(g) \/ ~CheckSig) /\ f.ok
 Loaded(f, g) == IF Accepts(f, g) THEN f.tab ELSE Tab(g)
